@@ -44,10 +44,10 @@ func specSlogLevel(l logslog.Level) Level {
 //@   ensures [C15.nonterminating] result != PanicLevel && result != FatalLevel
 
 //@ func logsloglevel2Level
-//@   props C15
+//@   props C12 C15
 //@   inline
 //@   ensures [C15.namesake] implies(level == logslog.LevelDebug, result == DebugLevel) && implies(level == logslog.LevelInfo, result == InfoLevel) && implies(level == logslog.LevelWarn, result == WarnLevel) && implies(level == logslog.LevelError, result == ErrorLevel)
-//@   ensures [C15.nonterminating] implies(result == FatalLevel, level == LevelFatal) && implies(result == PanicLevel, level == LevelPanic)
+//@   ensures [C12.C15.nonterminating] implies(result == FatalLevel, level == LevelFatal) && implies(result == PanicLevel, level == LevelPanic)
 
 //@ func (*handler4LogSlog).Enabled
 //@   props C15
